@@ -52,6 +52,8 @@ def generate(rng, tier):
         p = sc.gen_static(rng, n_leaves=rng.randint(1, 5), nest_depth=rng.choice([0, 0, 2]), faults=False,
                           tocks=rng.choice(["any", "dyadic"]), limit_p=0.7)
         sc.add_opt_always(rng, p)
+        if rng.random() < 0.15:
+            p["mode"] = "call"          # the callable form doist(doers=…, limit=…, tyme=…)
         out.append(p)
     # histories: several runs on one Doist (doers given at construction or to the first do(), then do()
     # again with/without a new limit and tyme)
